@@ -151,6 +151,27 @@ def Ucb.learn (fl : Rat → Rat) (st : Ucb) (a : Act) (r : Rat) : Except PErr Uc
         let inv := fl (1 / (sv : Rat))
         .ok { t := st.t + 1, m := dset st.m a (fl (fl (fl (1 - inv) * mv) + fl (inv * r))), s := dset st.s a (sv + 1) }
 
+/-! ### `coba.statistics.OnlineVariance` (Welford), the variance BanditUCB's index takes the root of.
+The index itself stays an arbitrary function in the learner model; what the real code needs from
+this class is that the variance is never negative (`sqrt` of the index would raise). -/
+
+structure Welford where
+  count : Rat := 0
+  mean : Rat := 0
+  m2 : Rat := 0
+  var : Option Rat := none     -- `nan` until two values were seen
+deriving Repr
+
+def Welford.update (fl : Rat → Rat) (w : Welford) (v : Rat) : Welford :=
+  let count := fl (w.count + 1)
+  let delta := fl (v - w.mean)
+  let mean := fl (w.mean + fl (delta / count))
+  let delta2 := fl (v - mean)
+  let m2 := fl (w.m2 + fl (delta * delta2))
+  { count := count, mean := mean, m2 := m2, var := if 1 < count then some (fl (m2 / fl (count - 1))) else w.var }
+
+def Welford.run (fl : Rat → Rat) (vs : List Rat) : Welford := vs.foldl (Welford.update fl) {}
+
 /-! ### the four base learners behind one interface, with Misguided wrappers -/
 
 inductive Kind
